@@ -362,7 +362,7 @@ def _run(ctx):
 
     def loop_terms(l, zip_form):
         item = l["item_root"]
-        DEP = r"^A:array\[[^\]]*\]\[@%s\.0\]$" % re.escape(item)
+        DEP = r"^A:array\[.*\]\[@%s\.0\]$" % re.escape(item)          # (elements may carry `[*]` themselves: `assets[position(..)]`)
         PEL = item + (".0" if zip_form else ".1")          # the pool element of this iteration
         if zip_form:
             DEP = r"^%s\.1$" % re.escape(item)            # the deposit element of the same iteration
@@ -462,6 +462,29 @@ def _run(ctx):
                     break
             exp = required and len(maps) == 1 and inner == maps[0]
             ok = exp and len(finds) == 1 and len(maps) == 1
+            # position form: `assets[assets.iter().position(|a| a.info == pools[k].info).expect(..)].amount`
+            poss_ = [x for x in common.walk(ev) if x[0] == "call" and isinstance(x[3], str) and common.last_seg(x[3]) == "position" and "Iterator" in x[3]]
+            if not ok and len(poss_) == 1 and not finds and ev[0] == "proj" and ev[2] == ("f", "amount") and ev[1][0] == "proj" and ev[1][2][0] == "ix":
+                base_, ixv_ = ev[1][1], ev[1][2][1]
+                req_ = False
+                x_ = ixv_
+                for _ in range(6):
+                    if x_[0] == "proj" and x_[2] in (("v", "Continue"), ("v", "Ok"), ("v", "Some"), ("f", 0)):
+                        x_ = x_[1]
+                    elif x_[0] == "call" and isinstance(x_[3], str) and (common.is_try_branch(x_[3]) or (common.last_seg(x_[3]) in ("expect", "unwrap") and re.search(r"option::Option", x_[3]))):
+                        x_, req_ = x_[4][0], True
+                    elif x_[0] == "call" and isinstance(x_[3], str) and common.last_seg(x_[3]) in ("ok_or", "ok_or_else") and re.search(r"option::Option", x_[3]):
+                        x_ = x_[4][0]
+                    else:
+                        break
+                if req_ and x_ == poss_[0] and set(ctx.roots(base_)) == {P_(f, assets_i)}:
+                    ads, kind, src = common.iter_chain(poss_[0][4][0])
+                    pred = c09.closure_predicate(ctx, poss_[0][4][1])
+                    cf = pred[2] if pred else None
+                    if not ads and kind == "iter" and set(ctx.roots(src)) == {P_(f, assets_i)} and pred is not None and pred[0] in ("equal", "eq") and \
+                            sorted("|".join(sorted(x)) for x in pred[1]) == sorted([P_(cf, 1, ".info"), "%s[%d].info" % (QP, k)]):
+                        r4.site("deposits[%d] = amount of the declared asset at the position whose info equals pools[%d].info, abort if absent" % (k, k))
+                        continue
             if ok:
                 ads, kind, src = common.iter_chain(finds[0][4][0])
                 ok = not ads and kind == "iter" and set(ctx.roots(src)) == {P_(f, assets_i)}
@@ -495,6 +518,11 @@ def run(ctx):
     from .. import numeric
     _run(ctx)
     numeric.arith_base(ctx, "C05.B1")
+    from .. import compose
+    from . import c16 as _c16
+    w1 = ctx.inst("C05.W1", "the requirements the pair enforces on the first provision are the ones configured at CreatePair: the factory hands them over unchanged (shared with C16.R5) and the pair stores the message's field (C16.R6)", floor=1)
+    compose.pull(ctx, w1, _c16, {"C16.R5"}, "C05.W1", key_rx=r":instantiate-requirements")
+    compose.pull(ctx, w1, _c16, {"C16.R6"}, "C05.W1", key_rx=r":pair-instantiate:requirements", max_sites=0)
     l1 = ctx.inst("C05.L1", "support lemmas: the equality that matches declared assets to pools is equality of (kind, identifier); is_native_token tests the variant — a Token spelled like a denom must not match the native pool", floor=2)
     lemmas.check_equal(ctx, l1)
     lemmas.check_is_native(ctx, l1)
